@@ -95,11 +95,13 @@ async def watch_known_dirs(workflow: Workflow, reporter: ReporterClient):
 
 
 async def rescan_env_vars(workflow: Workflow, reporter: ReporterClient):
-    """Check for changes in environment variables used by steps."""
-    sql = (
-        "SELECT node, label, name, value FROM env_var JOIN node ON env_var.node = node.i "
-        "WHERE NOT node.detached"
-    )
+    """Check for changes in environment variables used by steps.
+
+    Detached steps are included:
+    when a later build defines their creator again, they are attached again with their hash
+    and skipped, so a change made while they were detached must be noticed here.
+    """
+    sql = "SELECT node, label, name, value FROM env_var JOIN node ON env_var.node = node.i"
     async with workflow.db:
         env_var_uses = workflow.db.execute(sql).fetchall()
 
